@@ -65,7 +65,9 @@ func verifC13(native bool) {
 		for i, k := range keys {
 			nm := "e" + string(rune('0'+i))
 			age := zz.NondetI64(nm + ".age")
-			zz.Assume(zz.And(age >= 0, age <= now)) // written between 1970 and now
+			// written at any unsigned 64-bit timestamp from 1970 up to 2^63 ns after 'now': a negative
+			// age is a timestamp in the future (clock skew, or >= 2^63), which is never expired
+			zz.Assume(age <= now)
 			fl := zz.NondetU8(nm + ".flags")
 			vl := lens[i]
 			if vl > 0 {
